@@ -112,6 +112,9 @@ def generate(spec):
         elif r < 0.58:
             ops.append({"op": "delete", "id": rng.randrange(0, max(1, next_id + 2))})
             n_live_est = max(0, n_live_est - 1)
+        elif r < 0.60:
+            ops.append({"op": "delete_then_touch", "id": rng.randrange(0, max(1, next_id + 1)), "state": rng.choice(STATES)})
+            n_live_est = max(0, n_live_est - 1)
         elif r < 0.63:
             ops.append({"op": "delete_many", "ids": sorted({rng.randrange(0, max(1, next_id + 2)) for _ in range(rng.choice([2, 3]))})})
             n_live_est = max(0, n_live_est - 2)
@@ -174,6 +177,8 @@ def shadow_apply(sh, op):
         for _ in range(op["count"]):
             shadow_apply(sh, {"op": "create", "type": op["type"]})
     elif k == "delete":
+        sh["live"].pop(op["id"], None)
+    elif k == "delete_then_touch":
         sh["live"].pop(op["id"], None)
     elif k == "delete_many":
         for i in op["ids"]:
@@ -256,9 +261,9 @@ def run_history(ops_or_syms, res, log, symbolic):
         log.add("op", n, op)
         if destructive:
             after_destructive = True
-        if op["op"] in ("delete", "delete_many", "delete_type", "delete_each_of_type", "configure", "configure_bad", "reset"):
+        if op["op"] in ("delete", "delete_then_touch", "delete_many", "delete_type", "delete_each_of_type", "configure", "configure_bad", "reset"):
             destructive = True
-            res.fault({"delete": "agent_deletion", "delete_many": "agent_deletion", "delete_type": "agent_deletion",
+            res.fault({"delete": "agent_deletion", "delete_then_touch": "agent_deletion", "delete_many": "agent_deletion", "delete_type": "agent_deletion",
                        "delete_each_of_type": "agent_deletion", "configure": "reconfiguration",
                        "configure_bad": "failed_reconfiguration", "reset": "reset"}[op["op"]])
             if op["op"] in ("delete", "delete_many"):
